@@ -22,7 +22,9 @@ pub fn load_likely(repo: &str) -> Likely {
     for (k, val) in v["supplemental"]["likelySubtags"].as_object().expect("likelySubtags object") {
         entries.insert(k.clone(), val.as_str().expect("string value").to_string());
     }
-    Likely::new(entries, &["xx", "qqqqq"], &["Qaaa"], &["QQ", "999"])
+    // unknown representatives: below the first key, in the middle and above the last key of each
+    // table in the little-endian integer order the binary searches use, for every subtag length
+    Likely::new(entries, &["xx", "zz", "qqq", "zzz", "qqqqq", "zzzzzzzz"], &["Aaaa", "Qaaa", "Zzzz"], &["AA", "QQ", "ZZ", "000", "999"])
 }
 
 pub fn cldr_version(repo: &str) -> String {
@@ -90,7 +92,7 @@ impl Universe {
     pub fn describe(&self) -> Value {
         json!({
             "languages": self.langs.len(), "scripts": self.scripts.len(), "regions": self.regions.len(),
-            "note": "index 0 of each list = absent; the last 2/1/2 entries are unknown representatives (xx, qqqqq; Qaaa; QQ, 999)",
+            "note": format!("index 0 of each list = absent; unknown representatives (not in CLDR): languages {:?}, scripts {:?}, regions {:?}", &self.lk.langs[self.lk.known.0..], &self.lk.scripts[self.lk.known.1..], &self.lk.regions[self.lk.known.2..]),
             "triples": self.size(), "cldr_entries": self.lk.entries.len(),
         })
     }
